@@ -31,6 +31,16 @@ def showOpts (os : List OptEntry) : String :=
 
 def showTypes (ts : List Nat) : String := ".".intercalate (ts.map toString)
 
+def showSvcVal : SvcVal → String
+  | .mandatory ks => "M" ++ ".".intercalate (ks.map toString)
+  | .alpn xs => "A" ++ "|".intercalate (xs.map toHex)
+  | .noDefaultAlpn => "N"
+  | .port p => "P" ++ toString p
+  | .ipv4hint a => "4" ++ toHex a
+  | .ech d => "E" ++ toHex d
+  | .ipv6hint a => "6" ++ toHex a
+  | .unknown d => "U" ++ toHex d
+
 def showRData : RData → String
   | .a b => "A:" ++ toHex b
   | .aaaa b => "AAAA:" ++ toHex b
@@ -67,6 +77,9 @@ def showRData : RData → String
   | .openpgpkey d => "OPENPGPKEY:" ++ toHex d
   | .key flags proto alg k => "KEY:" ++ toString flags ++ ":" ++ toString proto ++ ":" ++ toString alg ++ ":" ++ toHex k
   | .caa crit res tag v => "CAA:" ++ showBool crit ++ ":" ++ toString res ++ ":" ++ toHex tag ++ ":" ++ toHex v
+  | .svcb prio t ps =>
+    "SVCB:" ++ toString prio ++ ":" ++ showName t ++ ":" ++
+      ";".intercalate (ps.map fun (k, v) => toString k ++ "=" ++ showSvcVal v)
   | .naptr o p f sv re n =>
     "NAPTR:" ++ toString o ++ ":" ++ toString p ++ ":" ++ toHex f ++ ":" ++ toHex sv ++ ":" ++ toHex re ++ ":" ++ showName n
   | .opaque t v => "X" ++ toString t ++ ":" ++ toHex v
